@@ -135,9 +135,11 @@ def readLinearX (ns nc T L hasU qonce ponce hasC : Nat) (a : Array F) (off0 : Na
   let nP := if ponce == 1 then 1 else T
   let p : PerStep (Vec F n) := if ponce == 1 then .once (vecAt a offP n) else .each fun t => vecAt a (offP + t * n) n
   let offU := offP + nP * n
+  -- hasU: 0 = `u_traj=None`, 1 = a nominal of T steps, 2+m = a nominal of m steps (the wrong-length error branch)
+  let nU := if hasU == 0 then 0 else if hasU == 1 then T else hasU - 2
   let ub : Option (List (Vec F nc)) :=
-    if hasU == 1 then some ((List.range T).map fun t => vecAt a (offU + t*nc) nc) else none
-  ⟨vecAt a off0 ns, Sys.linearOpt A B c, Prob.ofArgs T Q p, ub, offU + (if hasU == 1 then T*nc else 0)⟩
+    if hasU == 0 then none else some ((List.range nU).map fun t => vecAt a (offU + t*nc) nc)
+  ⟨vecAt a off0 ns, Sys.linearOpt A B c, Prob.ofArgs T Q p, ub, offU + nU*nc⟩
 
 /-- layout: x0 | A B c a phi W R | per t<T: Q p | (hasU) per t<T: ubar -/
 def readSin (ns nc T hasU : Nat) (a : Array F) (off0 : Nat) : LinData ns nc :=
